@@ -176,7 +176,26 @@ func Dump(path, prefix string) [][2]string {
 	return out
 }
 
+// one-shot hooks for deterministic interleavings: BeforeWrite runs (outside the engine's lock) right before the next
+// write group is applied; OnIter runs right after the next iterator has taken its snapshot.
+var (
+	hookMu      sync.Mutex
+	beforeWrite func(store string)
+	onIter      func(store, prefix string)
+)
+
+func SetBeforeWrite(f func(store string))    { hookMu.Lock(); beforeWrite = f; hookMu.Unlock() }
+func SetOnIter(f func(store, prefix string)) { hookMu.Lock(); onIter = f; hookMu.Unlock() }
+func ClearHooks()                            { hookMu.Lock(); beforeWrite, onIter = nil, nil; hookMu.Unlock() }
+
 func (s *Store) commit(ops []Op) error {
+	hookMu.Lock()
+	h := beforeWrite
+	beforeWrite = nil
+	hookMu.Unlock()
+	if h != nil {
+		h(s.Path)
+	}
 	mu.Lock()
 	defer mu.Unlock()
 	n := seq
@@ -223,6 +242,21 @@ func (d *db) Has(key []byte) (bool, error) {
 func (d *db) NewBatch() kvdb.Batch { return &batch{s: d.s, keys: map[string]bool{}} }
 
 func (d *db) iter(start, limit []byte, prefix []byte) kvdb.Iterator {
+	it := d.iter0(start, limit, prefix)
+	hookMu.Lock()
+	h := onIter
+	hookMu.Unlock()
+	if h != nil {
+		p := string(prefix)
+		if prefix == nil {
+			p = string(start)
+		}
+		h(d.s.Path, p)
+	}
+	return it
+}
+
+func (d *db) iter0(start, limit []byte, prefix []byte) kvdb.Iterator {
 	mu.Lock()
 	defer mu.Unlock()
 	it := &iter{pos: -1}
